@@ -166,6 +166,8 @@ fn main() {
                             let mut props: Vec<&'static str> = if only_c03 { vec!["C03", "C04"] } else { vec!["C04"] };
                             if only_c03 {
                                 props.extend(sched::also_broken(&programs, &outcome));
+                            } else if ws.is_empty() {
+                                props.extend(sched::also_broken_rmw(&programs, "expired"));
                             }
                             viols.push((start, ops.len(), props,
                                 format!("not linearizable: calls {:?} -> {} ; classes [{}]", outcome.steps, sched::fmt_results(&outcome.results), ws.join(","))));
